@@ -1,6 +1,11 @@
 use crate::{Core, Fwd, Waker};
 use std::sync::{Arc, Mutex};
 
+// Verification hook (Kani builds with `uazu-stakker-verif` only): `std` is
+// seen through a facade with a sequential Mutex
+#[cfg(all(kani, not(test), feature = "uazu-stakker-verif"))]
+use crate::uazu_stakker_verif::vstd as std;
+
 /// Channel for sending messages to an actor
 ///
 /// A [`Channel`] may be used to send messages of type `M` to an actor
